@@ -477,3 +477,46 @@ pub fn get_moves_prologue_contract() {
     assert!(went_on == king_there, "C01: get_moves' king-missing exit does not match the board");
     vcover!(!went_on && n == 2, "king-missing exit with a stale list reachable");
 }
+
+// =================================================================================================
+// rules-only lemmas closing the induction over WF (no engine code)
+// =================================================================================================
+
+/// WF9 => push's "no king is captured" precondition: if a geometrically valid move of the side to move
+/// lands on the square `k` of the enemy king, then that king is attacked -- so in a position where the
+/// side NOT to move is not in check no generated move captures a king.
+pub fn king_capture_lemma(k: usize) {
+    let b: spec::Board = mk::sym_codes64();
+    let w = nd::bool();
+    let v = spec::View { board: b, white_to_move: w, castle: [false; 4], ep: 8 };
+    nd::assume(b[k] == spec::code(spec::K, !w));
+    let from = mk::sym_sq();
+    let m = match nd::u8_in(0, 1) { 0 => SMove::Normal { from, to: k }, _ => SMove::Promo { from, to: k, kind: nd::u8_in(2, 5) } };
+    nd::assume(spec::pseudo_simple(&v, m));
+    assert!(spec::attacked(&b, k, w), "rules: a valid move onto the enemy king's square exists although that king is not attacked");
+    vcover!(spec::kind(b[from]) == spec::P, "pawn capturing towards the king reachable");
+}
+
+/// WF7 is established by the rules' successor: after any valid move, if an e.p. file is recorded then the
+/// pawn that just made the double step stands on it (4th/5th rank), the square it skipped is empty, and
+/// it belongs to the side that just moved; after every other move no e.p. file is recorded.
+pub fn ep_invariant_lemma() {
+    let b: spec::Board = mk::sym_codes64();
+    let w = nd::bool();
+    let v = spec::View { board: b, white_to_move: w, castle: [false; 4], ep: nd::u8_in(0, 8) };
+    let m = match nd::u8_in(0, 2) {
+        0 => SMove::Normal { from: mk::sym_sq(), to: mk::sym_sq() },
+        1 => SMove::Promo { from: mk::sym_sq(), to: mk::sym_sq(), kind: nd::u8_in(2, 5) },
+        _ => SMove::EnPassant { from: mk::sym_sq(), to: mk::sym_sq() },
+    };
+    nd::assume(spec::pseudo_simple(&v, m));
+    let n = spec::apply(&v, m);
+    if n.ep < 8 {
+        let f = n.ep as usize;
+        let (pawn_sq, skipped) = if w { (3 * 8 + f, 2 * 8 + f) } else { (4 * 8 + f, 5 * 8 + f) };
+        assert!(n.board[pawn_sq] == spec::code(spec::P, w) && n.board[skipped] == spec::EMPTY,
+                "rules: an e.p. file is recorded without the double-stepped pawn on it / with the skipped square occupied");
+        assert!(matches!(m, SMove::Normal { .. }), "rules: an e.p. file is recorded after a move that is not a pawn double step");
+    }
+    vcover!(n.ep < 8, "recorded e.p. file reachable");
+}
